@@ -52,7 +52,7 @@ FAMILIES_QUICK = [("edits", 2), ("wipe", 4), ("lostblob", 4), ("dirs", 2), ("ali
 FAMILIES_THOROUGH = [(f, n * 15) for f, n in FAMILIES_QUICK]
 
 # round-c families (generators in _hist2.py)
-FAMILIES2_QUICK = [("bintool", 3), ("runflip", 3), ("checklost", 3)]
+FAMILIES2_QUICK = [("bintool", 2), ("runflip", 2), ("checklost", 3)]
 GEN2 = {"bintool": H2.gen_bintool, "runflip": H2.gen_runflip, "checklost": H2.gen_checklost}
 
 
